@@ -465,11 +465,12 @@ def printed_pep440_rule(ctx, rule: str) -> None:
                 vals.append(e)
         for c in walk_no_nested(fn.node):
             if isinstance(c, ast.Call) and unparse(c.func) in ("click.echo", "print") and c.args:
-                text: T.List[str] = []
-                vals: T.List[ast.AST] = []
-                pieces(shapes.resolve_alias(fn, c.args[0]), text, vals)
-                if "".join(text).strip().upper().startswith(label):
-                    out.append((c, vals))
+                for line in shapes.printed_texts(fn, c):          # the argument, or each line of a list that the call walks
+                    text: T.List[str] = []
+                    vals: T.List[ast.AST] = []
+                    pieces(line, text, vals)
+                    if "".join(text).strip().upper().startswith(label):
+                        out.append((c, vals))
         return out
     tf = prog.function("cli.test")
     ctx.visit(tf.fq)
@@ -487,7 +488,7 @@ def printed_pep440_rule(ctx, rule: str) -> None:
     ctx.visit(sf.fq)
     cur = labelled(sf, "CURRENT")
     pep_s = labelled(sf, "PEP440")
-    ctx.floor(rule, "PEP440 lines printed by cli.show", len(pep_s), 3)
+    ctx.floor(rule, "PEP440 lines printed by cli.show", len(pep_s), 1)
     objs = {unparse(v.value) for _c, vs in cur for v in vs if isinstance(v, ast.Attribute) and v.attr == "current_version"}
     for c, vs in pep_s:
         ok = len(objs) == 1 and len(vs) == 1 and isinstance(vs[0], ast.Attribute) and vs[0].attr == "pep440_version" and unparse(vs[0].value) in objs
